@@ -35,6 +35,7 @@ SPACE = {'quick': '145 shapes x 6 placements x 5 docformats; ordered pairs of a 
 JOB_TIMEOUT = 2400
 CAP = {'quick': 400.0, 'thorough': 3000.0}
 BATCH = 20
+RUN_TIMEOUT = 150
 
 COLLISION = ['def', 'class', 'lambda', 'prop', 'overload', 'overload-after', 'deprecated', 'base-cycle', 'base-self', 'assign', 'assign-tuple', 'aug', 'ann', 'final', 'typealias',
              'self-attr', 'doc-assign', 'all-ok', 'all-odd', 'docformat-odd', 'imp-star', 'imp-rel', 'if-else', 'main', 'try', 'str-stmt', 'doc-surrogate', 'const-re', 'zope', 'attrs',
@@ -70,6 +71,10 @@ MULTI: Dict[str, Dict[str, str]] = {
     'reexport-module': {'pk/__init__.py': 'from . import a\nfrom .a import a as a2\n__all__ = ["a", "a2"]\n', 'pk/a.py': 'class a:\n    def m(self): pass\n'},
     'reexport-chain': {'pk/__init__.py': 'from .a import X\n__all__ = ["X"]\n', 'pk/a.py': 'from .b import X\n__all__ = ["X"]\n', 'pk/b.py': 'from .c import X\n__all__ = ["X"]\n', 'pk/c.py': 'class X:\n    class Y:\n        def m(self): "L{X}"\n'},
     'broken-init': {'pk/__init__.py': 'def (:\n', 'pk/a.py': 'from . import b\ndef f(): "doc"\n', 'pk/b.py': 'from pk import nope\n'},
+    'doc-assign-submodule-via-package': {'pk/__init__.py': '', 'pk/a.py': 'import pk\npk.zsub.__doc__ = "x"\npk.zsub.f.__doc__ = "y"\n', 'pk/zsub.py': '"""Doc."""\ndef f(): pass\n'},
+    'reexport-self-package': {'pk/__init__.py': '', 'pk/sub/__init__.py': 'from pk import sub\n__all__ = ["sub"]\n', 'pk/sub/m.py': 'def f(): pass\n'},
+    'reexport-root-package': {'pk/__init__.py': '', 'pk/a.py': 'import pk\nfrom . import a\n__all__ = ["pk", "a"]\n'},
+    'reexport-parent-package': {'pk/__init__.py': '', 'pk/sub/__init__.py': '', 'pk/sub/m.py': 'from pk import sub\nfrom pk.sub import m\n__all__ = ["sub", "m"]\n'},
     'unparsable-imported-first': {'pk/__init__.py': '', 'pk/alpha.py': 'from .zbroken import helper\nfrom .zbroken import *\nimport pk.zbroken\nclass A(pk.zbroken.B): pass\n', 'pk/zbroken.py': 'def (:\n'},
 }
 
@@ -117,14 +122,15 @@ def run_modules(mods: Dict[str, str], fmt: str) -> Tuple[Optional[str], List[Tup
     for name, src in mods.items():
         files[f'pk/{name}.py'] = src + '\n'
     try:
-        with pd.cli_run(files, ['--docformat', fmt], roots=['pk']) as r:
-            if r.exc:
-                return f'{r.exc_type}@{r.exc_site}', []
-            if r.status not in (0, 2, 3):
-                return f'status-{r.status}', []
-            return None, check_outputs(r, list(mods))
+        with core.time_limit(RUN_TIMEOUT):
+            with pd.cli_run(files, ['--docformat', fmt], roots=['pk']) as r:
+                if r.exc:
+                    return f'{r.exc_type}@{r.exc_site}', []
+                if r.status not in (0, 2, 3):
+                    return f'status-{r.status}', []
+                return None, check_outputs(r, list(mods))
     except core.JobTimeout:
-        raise
+        return f'hang>{RUN_TIMEOUT}s', []
 
 
 def explore(batch: Sequence[Tuple[str, str, str]], fmt: str, res: Dict[str, Any]) -> None:
@@ -215,7 +221,7 @@ def judge_multi(name: str, fmt: str, order_rev: bool, res: Dict[str, Any]) -> No
         if r.status not in (0, 2, 3):
             res['violations'].append(core.violation(f'aborts/status-{r.status}/multi:{name}', f'[project {name}] exit status {r.status}', case))
             return
-        mods = [os.path.basename(k)[:-3] for k in files if k.endswith('.py') and not k.endswith('__init__.py') and compilable(files[k])]
+        mods = [k[len('pk/'):-3].replace('/', '.') for k in files if k.endswith('.py') and not k.endswith('__init__.py') and compilable(files[k])]
         for c, d in check_outputs(r, mods):
             res['violations'].append(core.violation(f'{c}/multi:{name}', f'[project {name}, {fmt}] {c} {d}', case))
 
